@@ -21,7 +21,8 @@ from rules import inversion
 from sa.coords import derive, loop_binding, reaching_def
 from sa.guards import facts_at
 from sa.interproc import arg_map
-from sa.model import (AnalysisError, FuncInfo, Program, ancestors, parent,
+from sa.model import (AnalysisError, FuncInfo, Program, ancestors,
+                      enclosing_stmt, parent,
                       resolve_call, src, walk_local)
 from sa.peval import Enum, Kind, PEval, show
 from sa.report import Check
@@ -1148,12 +1149,93 @@ def d5b_scalars_have_no_attributes(chk: Check) -> None:
                      "100.0 (the value of `low`, say)")
 
 
+def d17_key_name_match_needs_an_array_of_hashes(chk: Check) -> None:
+    """`[.=term]` over an Array selects an element by a key named like the
+    term only when the Array *is* an Array-of-Hashes -- a question about the
+    whole list, asked once (`node_is_aoh(data)`).  Asked per element
+    (`isinstance(ele, dict) and term in ele`) a Hash sitting among scalars
+    is selected by `mixed[.=alpha]` and dropped by `mixed[.!=alpha]`."""
+    prog = chk.prog
+    chk.rule("C01-D17", "a `term in <element>` key-name match of the search "
+             "handler's list arm is conjoined with the whole-list "
+             "Array-of-Hashes verdict", floor=1)
+    fi = prog.func("Processor._get_nodes_by_search")
+    chk.analysed(fi)
+    data = fi.params()[1]
+    aoh_flags = {src(a.targets[0]) for a in walk_local(fi.node)
+                 if isinstance(a, ast.Assign) and
+                 isinstance(a.value, ast.Call) and
+                 src(a.value.func).endswith("node_is_aoh") and
+                 a.value.args and src(a.value.args[0]) == data}
+    n = 0
+    for loop in walk_local(fi.node):
+        if not isinstance(loop, ast.For):
+            continue
+        it = loop.iter
+        if isinstance(it, ast.Call) and src(it.func) == "enumerate" and \
+                it.args:
+            it = it.args[0]
+        if src(it) not in (data, "list({})".format(data)):
+            continue
+        tgt = loop.target
+        ele = src(tgt.elts[1]) if isinstance(tgt, ast.Tuple) and \
+            len(tgt.elts) == 2 else src(tgt)
+        for c in walk_local(loop):
+            if not (isinstance(c, ast.Compare) and len(c.ops) == 1 and
+                    isinstance(c.ops[0], ast.In) and
+                    src(c.comparators[0]) == ele):
+                continue
+            # only the key-name match of the `.` attribute: the left side
+            # is the search term, not the attribute name
+            if not any(isinstance(a, ast.BoolOp) for a in ancestors(c)):
+                continue
+            conj = set()
+            child = c
+            for a in ancestors(c):
+                if isinstance(a, ast.stmt):
+                    break
+                if isinstance(a, ast.BoolOp) and isinstance(a.op, ast.And):
+                    conj |= {src(v) for v in a.values if v is not child}
+                child = a
+            stmt_tests = {src(t) for t in _enclosing_tests(c)}
+            # the key-name match is the alternative (`or`) to the operator
+            alt = [a for a in ancestors(c)
+                   if isinstance(a, ast.BoolOp) and isinstance(a.op, ast.Or)
+                   and "search_matches" in src(a) and
+                   a in list(ast.walk(enclosing_stmt(c)))]
+            if not alt:
+                continue
+            n += 1
+            text = "`{}` in the element loop over {}".format(src(c), data)
+            if conj & aoh_flags or stmt_tests & aoh_flags:
+                chk.ok("C01-D17", fi, c, text, "under the whole-list "
+                       "verdict `{}`".format(sorted(aoh_flags)[0]))
+            else:
+                chk.fail("C01-D17", fi, c, text,
+                         "an element matches by key name whatever the rest "
+                         "of the list holds: a Hash among scalars is "
+                         "selected by `[.=key]` and lost by `[.!=key]`, "
+                         "which the Array-of-Hashes rule of the `.` search "
+                         "excludes")
+    if n == 0:
+        raise AnalysisError("key-name match of the list arm not found")
+
+
+def _enclosing_tests(node: ast.AST):
+    child = node
+    for a in ancestors(node):
+        if isinstance(a, ast.If) and child in a.body:
+            yield a.test
+        child = a
+
+
 def run(chk: Check) -> None:
     d6b_guard_completeness(chk)
     d13_filtered_traversal_recursion(chk)
     d15_leaf_means_no_container(chk)
     d4e_operator_consulted_for_every_element(chk)
     d16_container_tests_name_concrete_kinds(chk)
+    d17_key_name_match_needs_an_array_of_hashes(chk)
     from rules.shared import merge_identity_rule
     merge_identity_rule(chk, "C01-D14", ("yamlpath/processor.py",), 3)
     d1_dispatch(chk)
